@@ -464,6 +464,7 @@ class Ctx(object):
     self.serial = 0
     self.plug_classes = []
     self.raw = {}
+    self.flags = set()
 
   def next_inv(self, pid):
     with self.lock:
@@ -660,6 +661,9 @@ def make_plug_classes(specs, ctx, htf):
       ctx.log('plug-ctor-enter', i)
       if sp.get('ctor') == 'raise':
         raise PlugBoom('ctor of plug %d' % i)
+      if sp.get('ctor') == 'raise-once' and ('raised-once', i) not in ctx.flags:
+        ctx.flags.add(('raised-once', i))      # a transient fault: the instrument was unreachable this one time
+        raise PlugBoom('ctor of plug %d (first time only)' % i)
       self.serial = ctx.next_serial()
       ctx.log('plug-ctor-ok', i, self.serial)
       if sp.get('td_kind') == 'instance':
